@@ -91,6 +91,14 @@ frame_roundtrip_harness!(c01_frame_write_parse_inverse_1, 1);
 frame_roundtrip_harness!(c01_frame_write_parse_inverse_2, 2);
 // @verif prop=C01 id=O1.1+O1.2/7 tier=quick harness=c01_frame_write_parse_inverse_7 unwind=3 bound="cdata length 7, symbolic bytes/crc/isize" fns="write_frame,parse_frame"
 frame_roundtrip_harness!(c01_frame_write_parse_inverse_7, 7);
+// @verif prop=C01 id=O1.1+O1.2/0 tier=thorough harness=c01_frame_write_parse_inverse_0 unwind=3 bound="cdata length 0" fns="write_frame,parse_frame"
+frame_roundtrip_harness!(c01_frame_write_parse_inverse_0, 0);
+// @verif prop=C01 id=O1.1+O1.2/3 tier=thorough harness=c01_frame_write_parse_inverse_3 unwind=3 bound="cdata length 3" fns="write_frame,parse_frame"
+frame_roundtrip_harness!(c01_frame_write_parse_inverse_3, 3);
+// @verif prop=C01 id=O1.1+O1.2/5 tier=thorough harness=c01_frame_write_parse_inverse_5 unwind=3 bound="cdata length 5" fns="write_frame,parse_frame"
+frame_roundtrip_harness!(c01_frame_write_parse_inverse_5, 5);
+// @verif prop=C01 id=O1.1+O1.2/16 tier=thorough harness=c01_frame_write_parse_inverse_16 unwind=3 bound="cdata length 16" fns="write_frame,parse_frame"
+frame_roundtrip_harness!(c01_frame_write_parse_inverse_16, 16);
 // @verif prop=C01 id=O1.1+O1.2/30 tier=thorough harness=c01_frame_write_parse_inverse_30 unwind=3 bound="cdata length 30, symbolic bytes/crc/isize" fns="write_frame,parse_frame"
 frame_roundtrip_harness!(c01_frame_write_parse_inverse_30, 30);
 
